@@ -10,9 +10,9 @@
       iterations and three seeds.  The Verus proof rests on assumed contracts of std/world functions; a concrete input on
       which the real code disagrees with the statement oracle although every obligation is discharged means one of those
       assumptions (or the oracle) is wrong, and is reported as a VIOLATION with the witness;
-   c. C04 only: the real matcher and the formal definition of the expansion (dhas, the subject of theorem_expansion) against
-      the operational left-to-right csh expansion, exhaustively for all brace patterns up to length 10 over a 5-letter
-      alphabet (a validation of the specification; the theorem itself is proved for all patterns).
+   c. C04 only: the real matcher against an executable transcription of the operational left-to-right csh expansion,
+      exhaustively for all brace patterns up to length 10 over a 5-letter alphabet (validation of the trusted base; that
+      the expansion itself is the denotation used by the proof is theorem_csh, for all patterns).
 3. replay of the recorded witnesses of known findings against the real code (done by bin/check).
 """
 import hashlib
@@ -188,10 +188,10 @@ def run(pid, cfg, repo, seed, root):
                 t = time.time()
                 p = subprocess.run([exe, "bounded", "C04", n], stdout=subprocess.PIPE, stderr=subprocess.PIPE, universal_newlines=True, timeout=3000)
                 dif["c04_expansion_cross_check"] = {
-                    "label": "bounded exhaustive (all brace patterns up to length %s over a 5-letter alphabet): (a) the real Pattern against the "
-                             "operational left-to-right csh oracle; (b) the formal definition of the expansion used by theorem_expansion (dhas, "
-                             "transcribed as oracle::expand_d) against that operational oracle - a validation of the specification, the theorem "
-                             "itself is proved for all patterns" % n,
+                    "label": "bounded exhaustive (all brace patterns up to length %s over a 5-letter alphabet): the real Pattern against an executable "
+                             "transcription of the operational left-to-right csh expander (validation of the trusted base: glob crate, std shims); "
+                             "also that transcription against one of the denotation dhas - redundant since theorem_csh proves them equal for all "
+                             "balanced patterns, kept as a check of the transcriptions" % n,
                     "result": p.stdout.strip().split("\n")[-1][:300], "wall_s": round(time.time() - t, 1)}
                 if p.returncode == 1:
                     lines.append("VIOLATION property=C04 replay=%s obligation=pattern::(all-discharged;assumption-check;csh-oracle) no-failing-input-found" %
